@@ -360,7 +360,17 @@ fn harvest(spec: &str, calls: u32, cuts: &std::collections::BTreeSet<usize>) -> 
                 for x in a {
                     if let Some(s) = x.as_str() {
                         for f in string_features(s, cuts) {
-                            seen.entry(f).or_insert_with(|| s.to_string());
+                            // for "contains character c" the longest example is kept (a special character
+                            // matters most where the string is also cut or near a length limit); for the
+                            // other shapes the first one
+                            if f.starts_with("char:") {
+                                let e = seen.entry(f).or_insert_with(|| s.to_string());
+                                if s.chars().count() > e.chars().count() {
+                                    *e = s.to_string();
+                                }
+                            } else {
+                                seen.entry(f).or_insert_with(|| s.to_string());
+                            }
                         }
                     }
                 }
